@@ -71,7 +71,9 @@ CHECKS.update({
               "End to end (algdiff, part of this check): in real ceremonies every partial signature a machine puts on the board is checked with tbls.Verify over the "
               "payload the PROPOSAL gives for that identifier (signed_eq_proposed), and every stored/broadcast final signature carries exactly that payload and "
               "verifies over it with prysm (stored_payload, foreign_message); batches include one only a board writer can make: an identifier used by two tasks "
-              "with different payloads, a range in between, and an explicit task named like one of the range's validators (last task wins everywhere: consumers_agree)."),
+              "with different payloads, a range in between, and an explicit task named like one of the range's validators (last task wins everywhere: consumers_agree). "
+              "The node's side (nodediff, also part of this check): after every accepted proposal the placeholders the node keeps are, identifier by identifier, the files and payloads of "
+              "THAT proposal (stored_eq_proposed); a second proposal under the same batch id with other tasks is shown to the node first and rolled back."),
         ref='7 C03',
         note=("Trusted: as C17 plus fsmdiff. Modelled, not verified: encoding/json of []SigningTask; the three consumers are modelled as last-wins maps "
               "over the expanded list (read off bls.go, node_service.go, signature.go), tied only through the differential runs.")),
